@@ -57,7 +57,7 @@ FLAVOURS = ('wf',) * 12 + ('empty', 'cr', 'cut', 'len', 'truncated', 'truncated'
 
 def jobs_for(tier, wd, sd):
     quick = tier == 'quick'
-    nprog, nmem, nchars = (1100, 420, 40) if quick else (16000, 6000, 400)
+    nprog, nmem, nchars = (900, 330, 32) if quick else (9000, 3300, 160)
     jobs = []
     for n in range(nprog):
         jobs.append(('program', wd, n, sd, FLAVOURS[n % len(FLAVOURS)]))
